@@ -173,6 +173,16 @@ class Tensor:
             return self._opset.Mod(self, other, fmod=1)
         return self._opset.Mod(self, other)
 
+    def __rmod__(self, other):
+        if self.onnx_dtype in {
+            ir.DataType.FLOAT,
+            ir.DataType.DOUBLE,
+            ir.DataType.FLOAT16,
+            ir.DataType.BFLOAT16,
+        }:
+            return self._opset.Mod(other, self, fmod=1)
+        return self._opset.Mod(other, self)
+
     def __ne__(self, other):
         temp = self._opset.Equal(self, other)
         return self._opset.Not(temp)
@@ -207,6 +217,9 @@ class Tensor:
     def __pow__(self, other):
         return self._opset.Pow(self, other)
 
+    def __rpow__(self, other):
+        return self._opset.Pow(other, self)
+
     def __sub__(self, other):
         return self._opset.Sub(self, other)
 
@@ -215,6 +228,9 @@ class Tensor:
 
     def __truediv__(self, other):
         return self._opset.Div(self, other)
+
+    def __rtruediv__(self, other):
+        return self._opset.Div(other, self)
 
     def __lt__(self, other):
         return self._opset.Less(self, other)
